@@ -1,4 +1,6 @@
 import B6.Lemmas.Validate
+import B6.Lemmas.ValidateEdits
+import B6.Lemmas.Validator
 /-!
 # C37 — Every feature in a world is valid
 
@@ -12,14 +14,15 @@ S2's verdicts on a closed loop (valid? counter-clockwise?) are an `Oracle`.
                              breaks it for degenerate loops: finding `degenerate_loop`)
 * `build_all_valid_no_invert` the same without any assumption on the oracle when clockwise paths are
                              rejected (`FailClockwisePaths`)
-* `dangling_area_counterexample`, `finish_old_panics`  the single-pass `Finish` before the repair keeps an
+* `dangling_area_counterexample`, `finish_old_panics`  the single-pass `Finish` before the repairs keeps an
                              area whose path it deletes, and panics (fatally) on an area over a path whose
                              first point is missing
 * `degenerate_loop_counterexample` the remaining class
-* `edits_preserve_valid_statement` (tied by the correspondence run only)
+* `edits_preserve_valid_partial`  an accepted `BasicMutableWorld.AddFeature` keeps every feature valid
+* `validator_emits_valid`    `compact.Validator` emits only valid paths and areas over emitted loops, in any order
 -/
 namespace B6.Props.C37
-open B6.Model.Validate B6.Lemmas.Validate
+open B6.Model.Validate B6.Lemmas.Validate B6.Lemmas.ValidateEdits B6.Lemmas.Validator
 
 theorem validatePath_ok {O : Oracle} {w : World} {refs : List Id} (h : validatePath O w refs = .ok) :
     2 ≤ refs.length ∧ ∃ slots, pathSlots w refs = some slots ∧
@@ -252,10 +255,50 @@ theorem build_all_valid_statement_false : ¬ build_all_valid_statement := by
   rw [h2] at this; cases this
 
 /-- the statement about edits (`BasicMutableWorld.AddFeature`): an accepted edit keeps every feature
-valid. Not proved here; tied by the correspondence run (every world after every edit is re-validated
-by the driver's `allValid`). -/
+valid. -/
 def edits_preserve_valid_statement : Prop :=
   ∀ (O : Oracle) (w w' : World) (f : Feat), Uniq w → allValid O w = true →
     (match addFeature O w f with | .ok x => x = w' | _ => False) → allValid O w' = true
+
+/-- **edits_preserve_valid_partial.** If every feature of `w` is valid and `AddFeature(f)` is accepted,
+every feature of the resulting world is valid — for all worlds, features and oracles — given that a
+replacement keeps the kind of the feature it replaces (IDs carry the feature type) and that the
+referrer set `AddFeature` re-validates is closed under "references a member" (an executable check on
+`referrers`; what C15's `find_refs_spec` guarantees for the real query). -/
+theorem edits_preserve_valid_partial (O : Oracle) (w w' : World) (f : Feat) (hu : Uniq w)
+    (hv : allValid O w = true)
+    (hk : ∀ g ∈ w, g.id = f.id → sameCtor g f = true)
+    (hcl : closedSet w f.id (referrers w f.id) = true)
+    (h : addFeature O w f = .ok w') : allValid O w' = true := by
+  simp only [allValid, List.all_eq_true] at hv ⊢
+  exact edits_valid O w w' f hu hv hk hcl h
+
+/-- non-vacuity: moving point 2 under a closed path and its area is accepted and keeps the world valid -/
+def editW : World := [pt 1 1, pt 2 2, pt 3 3, ⟨(1, 10), .path [(0, 1), (0, 2), (0, 3), (0, 1)]⟩, ⟨(2, 20), .area [[(1, 10)]]⟩]
+example : Uniq editW ∧ allValid niceOracle editW = true ∧ closedSet editW (0, 2) (referrers editW (0, 2)) = true ∧
+    (∀ g ∈ editW, g.id = (pt 2 26).id → sameCtor g (pt 2 26) = true) ∧
+    (match addFeature niceOracle editW (pt 2 26) with | .ok _ => true | _ => false) = true := by
+  refine ⟨by unfold Uniq; decide, by decide, by decide, by decide, by decide⟩
+
+/-- **validator_emits_valid.** `compact.Validator`, fed the paths and areas of a source in ANY order:
+every path it emits is valid with respect to the point locations, and every area it emits names only
+paths that it has emitted as closed loops of at least three points — provided inversion repairs
+clockwise loops (`featContract`, the per-feature form of `invertContract`). -/
+theorem validator_emits_valid (O : Oracle) (pts : World) (src : List Feat)
+    (hc : ∀ f ∈ src, featContract O pts f) :
+    let out := (Validator.run O ⟨pts, [], []⟩ src).2
+    (∀ i refs, (⟨i, .path refs⟩ : Feat) ∈ out → valid O pts ⟨i, .path refs⟩ = true) ∧
+    (∀ i polys, (⟨i, .area polys⟩ : Feat) ∈ out → ∀ pid ∈ polys.flatten,
+        ∃ refs, (⟨pid, .path refs⟩ : Feat) ∈ out ∧ isLoop pts refs = true) := by
+  have hE : Emitted O pts [] := ⟨fun i r h => (by cases h), fun i p h => (by cases h)⟩
+  have := run_inv O pts src ⟨pts, [], []⟩ [] rfl
+    (by intro id hid; simp [Validator.state] at hid) hE hc
+  rw [List.nil_append] at this
+  exact this
+
+/-- non-vacuity: an area fed before its path is emitted once the path has been seen -/
+example : (Validator.run niceOracle ⟨[pt 1 1, pt 2 2, pt 3 3], [], []⟩
+    [⟨(2, 20), .area [[(1, 10)]]⟩, ⟨(1, 10), .path [(0, 1), (0, 2), (0, 3), (0, 1)]⟩]).2 =
+    [⟨(1, 10), .path [(0, 1), (0, 2), (0, 3), (0, 1)]⟩, ⟨(2, 20), .area [[(1, 10)]]⟩] := by decide
 
 end B6.Props.C37
